@@ -2,6 +2,7 @@ package props
 
 import (
 	"context"
+	"errors"
 	"fmt"
 	"sort"
 	"sync"
@@ -66,6 +67,9 @@ type c16Case struct {
 	// PeerPings: how many Pings the peer sends when it sees the library's Close frame,
 	// before it sends (or withholds) its own - legal until the peer has closed too.
 	PeerPings int
+	// FaultOnClose: the transport reports an error for the Write call that carried the library's first Close
+	// frame although the bytes went out (a transient fault): the frame IS on the wire, so nothing may follow it
+	FaultOnClose bool
 }
 
 var c16Causes = []string{"local-close", "local-close", "local-close-1005", "peer-close", "peer-close-empty", "violation", "read-limit", "closeread-data", "netconn-type", "wsjson"}
@@ -123,6 +127,7 @@ func genC16(rt *rapid.T) c16Case {
 	c.Final = rapid.SampledFrom([]string{"Close", "CloseNow"}).Draw(rt, "final")
 	c.FinalGap = rapid.SampledFrom([]time.Duration{0, time.Second, 12 * time.Second}).Draw(rt, "finalGap")
 	c.PeerPings = rapid.SampledFrom([]int{0, 0, 1, 2}).Draw(rt, "peerPingsAfterClose")
+	c.FaultOnClose = rapid.IntRange(0, 4).Draw(rt, "transportFaultOnTheCloseFrame") == 0
 	return c
 }
 
@@ -146,6 +151,22 @@ func runC16(t fataler, c c16Case) (string, c16Result) {
 	conn := lc.C
 	ctx := context.Background()
 	t0 := time.Now()
+	if c.FaultOnClose {
+		fired := false
+		lc.Lib.SetWriteHook(func(rec []byte) error {
+			if fired {
+				return nil
+			}
+			frames, _, _ := ref.ParseFrames(rec)
+			for _, f := range frames {
+				if f.Opcode == ref.OpClose {
+					fired = true
+					return errors.New("transient transport error (the segment did go out)")
+				}
+			}
+			return nil
+		})
+	}
 	p.onFrame = func(f ref.Frame) {
 		switch f.Opcode {
 		case ref.OpPing:
@@ -427,7 +448,7 @@ func TestC16(t *testing.T) {
 				shape += fmt.Sprintf(",%d/%v/%d/%v", lenClass(m.Len), m.UseWriter, len(m.Chunks), m.Gap)
 			}
 		}
-		classes := []string{"cause:" + c.Cause, "echo:" + c.Echo, "final:" + c.Final, "mode:" + c.Mode.Name}
+		classes := []string{"cause:" + c.Cause, "echo:" + c.Echo, "final:" + c.Final, "mode:" + c.Mode.Name, map[bool]string{true: "transport-reports-an-error-for-the-write-that-carried-the-close-frame"}[c.FaultOnClose]}
 		if res.OpAfterClose {
 			classes = append(classes, "op-issued-after-close-frame")
 		}
